@@ -1810,7 +1810,10 @@ def leg_construct(ctx, P, rng, force=None):
         if ok:
             for lo, hi, d, (ilo, ihi), idx in zip(mg["lo"], mg["hi"], m["dx"], impl["bounds"], impl["dx"]):
                 sc = max(abs(ilo), abs(ihi))
-                if not (same(unq(lo), ilo, sc, True) and same(unq(hi), ihi, sc, True) and same(unq(d), idx, abs(idx), exact)):
+                # reversed Cartesian bounds are flipped through `pos + (hi - lo)`: exact for dyadic numbers, rounded (an ulp)
+                # for decimal ones - the exact model is compared to round-off there
+                exact_b = spec.get("mode") == "dyadic"
+                if not (same(unq(lo), ilo, sc, exact_b) and same(unq(hi), ihi, sc, exact_b) and same(unq(d), idx, abs(idx), exact)):
                     ok = False
         if not ok:
             ctx.disagree("ctor", case, {"grid": mg, "dim": m["dim"], "dx": [float(unq(x)) for x in m["dx"]]}, impl,
